@@ -25,15 +25,15 @@ func runC06(c *Ctx) {
 	// C06.O1b
 	if fn := c.Fn("C06.O1b", "p.(*commitPipeline).AllocateSeqNum"); fn != nil {
 		c.Chain("C06.O1b", fn, nil,
-			Step{Name: "prepare(seqNum)", M: DynCall("prepare")},
-			Step{Name: "mu.Unlock", M: MethodOn("Unlock", "p.mu")},
-			Step{Name: "apply(seqNum)", M: DynCall("apply")},
+			Step{Name: "prepare(seqNum)", M: DynCall(ParamName(fn, 2))},
+			Step{Name: "mu.Unlock", M: MethodOn("Unlock", "recv.mu")},
+			Step{Name: "apply(seqNum)", M: DynCall(ParamName(fn, 3))},
 			Step{Name: "publish", M: CallTo("p.(*commitPipeline).publish")},
 		)
 	}
 	// C06.O2
 	if fn := c.Fn("C06.O2", "p.(*DB).commitWrite"); fn != nil {
-		fl := NewFlow(c.P).Edge("seqnum-set|not-flushable", ZeroGuard("b.flushable"))
+		fl := NewFlow(c.P).Edge("seqnum-set|not-flushable", ZeroGuard("flushable"))
 		c.Chain("C06.O2", fn, fl,
 			Step{Name: "flushable.setSeqNum", M: CallTo("p.(*flushableBatch).setSeqNum"), Also: "seqnum-set|not-flushable", Free: true},
 			Step{Name: "makeRoomForWrite", M: Reaching(CallTo("p.(*DB).makeRoomForWrite"), 2), Need: []string{"seqnum-set|not-flushable"}},
@@ -69,8 +69,8 @@ func runC06(c *Ctx) {
 }
 
 func runC07(c *Ctx) {
-	lockM := MethodOn("Lock", "p.mu")
-	unlockM := MethodOn("Unlock", "p.mu")
+	lockM := MethodOn("Lock", "recv.mu")
+	unlockM := MethodOn("Unlock", "recv.mu")
 	// C07.R1
 	if fn := c.Fn("C07.R1", "p.(*commitPipeline).prepare"); fn != nil {
 		fl := NewFlow(c.P).After("held:commit.mu", lockM).KillAfter("held:commit.mu", unlockM)
@@ -88,9 +88,9 @@ func runC07(c *Ctx) {
 		res := c.Chain("C07.R1", fn, fl,
 			Step{Name: "pending.enqueue", M: CallTo("p.(*commitQueue).enqueue")},
 			Step{Name: "logSeqNum.Add", M: MethodOn("Add", "logSeqNum")},
-			Step{Name: "prepare(seqNum)", M: DynCall("prepare")},
+			Step{Name: "prepare(seqNum)", M: DynCall(ParamName(fn, 2))},
 		)
-		for _, m := range []M{CallTo("p.(*commitQueue).enqueue"), MethodOn("Add", "logSeqNum"), DynCall("prepare")} {
+		for _, m := range []M{CallTo("p.(*commitQueue).enqueue"), MethodOn("Add", "logSeqNum"), DynCall(ParamName(fn, 2))} {
 			c.Require("C07.R1", res, m, m.Desc+" under commitPipeline.mu", []string{"held:commit.mu"})
 		}
 	}
@@ -155,7 +155,7 @@ func runC07(c *Ctx) {
 			Step{Name: "publish", M: CallTo("p.(*commitPipeline).publish")},
 			Step{Name: "<-commitQueueSem", M: RecvFrom("commitQueueSem")},
 		)
-		fl := NewFlow(c.P).After("did:publish", CallTo("p.(*commitPipeline).publish")).Edge("empty", BoolGuard("b.Empty()", true))
+		fl := NewFlow(c.P).After("did:publish", CallTo("p.(*commitPipeline).publish")).Edge("empty", BoolGuard("Empty()", true))
 		res = fl.Analyze(fn, emptyState())
 		c.RequireAtSuccess("C07.O2", res, "publish", []string{"did:publish"}, "empty")
 	}
